@@ -222,7 +222,7 @@ def shard(arg):
 
 
 def run(ctx):
-    per = 150 if ctx.quick else 4000
+    per = 150 if ctx.quick else 40000
     args = [("graphs",)] + [("hyp", ctx.seed * 1000 + i, per, ctx.deadline) for i in range(16)]
     rep = fw.run_shards(ctx, "props.c14", "shard", args)
     rep.extra["exhaustive"] = False
